@@ -34,7 +34,7 @@ func mkReport(name string, quota int32, used int32) *proxyv1alpha1.RateLimitCond
 // TestPropOverlappingReports: concurrent overlap of honest reports (and a limit change) under a harness-owned schedule.
 func TestPropOverlappingReports(t *testing.T) {
 	sub := stats.NewSub("overlapping-report-schedules", "rapid + deterministic scheduler (schedule points and scheduler-aware mutexes inserted into ratelimter.go at check time): 2-3 honest instances are first driven sequentially for 0-12 rounds at full usage (so the allocation approaches the global limit 8..120), then each reports once more (and optionally the global limit is changed) as logical threads; oracle at quiescence: the quotas on record sum to at most the limit in force at the end (instances at the minimum quota 1 aside) if the sum was within the limit before, every answered quota is in [1, limit in force during the run], the recorded sum equals the actual sum; deadlock or panic is a violation; the interleaving is given by 0-5 rapid-drawn pre-emption points (decision number, thread to switch to); non-trivial = at least one report is pre-empted inside UpdateRateLimitConditionStatus while the allocation is within 25% of the limit; distinct by FNV-64 of (setup, schedule)")
-	stats.Check(t, stats.N(1500, 25000), func(t *rapid.T) {
+	stats.Check(t, stats.N(4000, 25000), func(t *rapid.T) {
 		limit := int32(rapid.IntRange(8, 120).Draw(t, "limit"))
 		nInst := rapid.IntRange(2, 3).Draw(t, "instances")
 		rounds := rapid.IntRange(0, 12).Draw(t, "warmupRounds")
